@@ -207,8 +207,10 @@ def step (s : PState) : Tok → Except PErr PState
     -- `+` and `-` become signs instead, the range operators are not checked here
     if (name ≠ "+" ∧ name ≠ "-" ∧ name ≠ " " ∧ name ≠ "," ∧ name ≠ ":") ∧
         ¬ (s.prev = .operand ∨ s.prev = .rparen ∨ s.prev = .percent) then .error .token
+    -- a percentage is no reference: no range operator directly behind `%` (`fix:` commit; `x% y` was read as `(x y)%`)
+    else if (name = " " ∨ name = ":") ∧ s.prev = .percent then .error .token
     else oprStep s name
-  | .isect => oprStep s " "
+  | .isect => if s.prev = .percent then .error .token else oprStep s " "
   | .sep =>
     match popToStart (if s.prev = .sep ∨ s.prev = .lparen then pushOperand s (.operand .empty "") else s).st
         (if s.prev = .sep ∨ s.prev = .lparen then pushOperand s (.operand .empty "") else s).out with
